@@ -6,6 +6,8 @@ REPO = os.environ.get('VERIF_REPO', '/repo')
 ROOT = os.path.dirname(os.path.dirname(os.path.dirname(os.path.abspath(__file__))))
 os.environ.setdefault('MPLBACKEND', 'Agg')
 os.environ.setdefault('PYTHONHASHSEED', '0')
+for _v in ('OPENBLAS_NUM_THREADS', 'OMP_NUM_THREADS', 'MKL_NUM_THREADS'):      # small matrices: threaded BLAS only thrashes a loaded machine
+    os.environ.setdefault(_v, '1')
 if REPO not in sys.path:
     sys.path.insert(0, REPO)
 import numpy as np
@@ -125,7 +127,51 @@ def admissible(q, msgs):
     return True
 
 
-def gen_admissible(rng, tries=40, shear=False, **kw):
+def via_history(cfg, rng):
+    """the object for `cfg` reached through a call HISTORY instead of a fresh construction: built for a different axis (possibly with one more
+    harmonic) and other scalar inputs, then resized with change_nfourier and moved to cfg with set_dofs (order r3: calculate_shear() afterwards,
+    half of the time).  On a correct implementation the result is indistinguishable from Qsc(**cfg) (property C16); using such objects in the
+    other oracles exposes stale caches and in-place writes that no freshly constructed object shows."""
+    qsc = import_qsc()
+    nh = len(cfg['rc'])
+    sc = 1.0 + rnd(rng, 0.05, 0.25) * (1 if rng.random() < 0.5 else -1)
+    c0 = dict(cfg)
+    for k in ('rc', 'zs', 'rs', 'zc'):
+        if k in cfg:
+            c0[k] = [cfg[k][0]] + [x * sc for x in cfg[k][1:]]
+    extra = rng.random() < 0.4
+    if extra:
+        for k in ('rc', 'zs', 'rs', 'zc'):
+            if k in c0:
+                c0[k] = list(c0[k]) + [c0[k][-1] * 0.05 if k in ('rc', 'zs') else 0.0]
+    c0['etabar'] = cfg['etabar'] * (1.0 + rnd(rng, 0.03, 0.1))
+    if 'B2c' in cfg:
+        c0['B2c'] = cfg['B2c'] + 0.07
+    h = WarnCatcher(); lg = logging.getLogger('qsc'); lg.addHandler(h); old = lg.level; lg.setLevel(logging.WARNING)
+    try:
+        with warnings.catch_warnings(record=True) as w:
+            warnings.simplefilter('always')
+            with np.errstate(all='ignore'):
+                q = qsc.Qsc(**c0)
+                if q.nfourier != nh:
+                    q.change_nfourier(nh)
+                z = [0.0] * nh
+                x = np.array(list(cfg['rc']) + list(cfg['zs']) + list(cfg.get('rs', z)) + list(cfg.get('zc', z))
+                             + [cfg['etabar'], cfg.get('sigma0', 0.0), cfg.get('B2s', 0.0), cfg.get('B2c', 0.0), cfg.get('p2', 0.0), cfg.get('I2', 0.0), cfg.get('B0', 1.0)], dtype=float)
+                h.records.clear()
+                q.set_dofs(x)
+                if cfg.get('order') == 'r3' and rng.random() < 0.5:
+                    q.calculate_shear()
+        msgs = list(h.records)
+    finally:
+        lg.removeHandler(h); lg.setLevel(old)
+    return q, msgs
+
+
+HISTORY_FRACTION = float(os.environ.get('VERIF_HISTORY_FRACTION', '0.25'))
+
+
+def gen_admissible(rng, tries=40, shear=False, history=True, **kw):
     for _ in range(tries):
         cfg = gen_config(rng, **kw)
         try:
@@ -133,6 +179,16 @@ def gen_admissible(rng, tries=40, shear=False, **kw):
         except Exception:
             continue
         if admissible(q, msgs):
+            if history and rng.random() < HISTORY_FRACTION:
+                try:
+                    q2, msgs2 = via_history(cfg, rng)
+                    if admissible(q2, msgs2):
+                        if shear and cfg.get('order') == 'r3' and not hasattr(q2, 'iota2'):
+                            q2.calculate_shear()
+                        q2._verif_history = True
+                        return cfg, q2
+                except Exception:
+                    pass
             return cfg, q
     raise RuntimeError('could not generate an admissible configuration')
 
